@@ -248,27 +248,19 @@ class Rig:
         tok = ev[4]
         if ev[0] == 'DR':
             self.last_read_ret = None
-            keep = self.mgr_uid['r']
-            if self.mgr._read_complete_cb is None:
+            if self.mgr._read_complete_cb is None:      # otherwise the manager refuses ('Read operation ongoing')
                 self.mgr_uid['r'] = u0
             dk.read(ev[2], ev[3], lambda a, data: self._dnote('drok', tok, a, list(data)),
                     read_failed_cb=lambda a: self._dnote('drfail', tok, a))
             if self.last_read_ret:
                 self.uid += 1
-            else:
-                self.mgr_uid['r'] = keep
             self.cur += [6, 1 if self.last_read_ret else 0]
         else:
             if self.mgr._write_complete_cb is None:
                 self.mgr_uid['w'] = u0
                 self.uid += 1
-            try:
-                dk.write(ev[2], bytearray(ev[3]), lambda a: self._dnote('dwok', tok, a),
-                         write_failed_cb=lambda a: self._dnote('dwfail', tok, a))
-            except Exception:
-                if self.uid == u0 + 1 and self.mgr_uid['w'] == u0 and self.mgr._write_complete_cb is None:
-                    self.uid = u0
-                raise
+            dk.write(ev[2], bytearray(ev[3]), lambda a: self._dnote('dwok', tok, a),
+                     write_failed_cb=lambda a: self._dnote('dwfail', tok, a))
             self.cur += [6, 1]
         self.stream.append(('dopret', ev, u0, self.uid))
 
@@ -347,9 +339,9 @@ class Rig:
         queued write (read off the records the property's anchors name)"""
         if chan == 1:
             r = self.mem._read_requests.get(i)
-            return None if r is None else r.mem.uid
+            return None if r is None else self._uid_of(r.mem, 'r')
         q = self.mem._write_requests.get(i)
-        return q[0].mem.uid if q else None
+        return self._uid_of(q[0].mem, 'w') if q else None
 
     # ---- events
     def fresh(self, ev):
@@ -428,19 +420,19 @@ class Rig:
         wr = m._write_requests
         out = [1 if self.locked() else 0, len(rr)]
         for i, r in rr.items():
-            out += [r.mem.uid, r.mem.id, r.addr, r._bytes_left, r._current_addr, len(r.data)]
+            out += [self._uid_of(r.mem, 'r'), r.mem.id, r.addr, r._bytes_left, r._current_addr, len(r.data)]
         out.append(len(wr))
         for i, q in wr.items():
             out += [i, len(q)]
             for w in q:
-                out += [w.mem.uid, w.addr, w._current_addr, len(w._data)]
+                out += [self._uid_of(w.mem, 'w'), w.addr, w._current_addr, len(w._data)]
         return out
 
     def pending(self):
         """(set of read uids, per id list of write uids) still recorded"""
         m = self.mem
-        return ({r.mem.uid for r in m._read_requests.values()},
-                {i: [w.mem.uid for w in q] for i, q in m._write_requests.items()})
+        return ({self._uid_of(r.mem, 'r') for r in m._read_requests.values()},
+                {i: [self._uid_of(w.mem, 'w') for w in q] for i, q in m._write_requests.items()})
 
     def window(self, i, a, n):
         return [self.byte(i, a + k) for k in range(n)]
